@@ -279,6 +279,8 @@ class TextLinesCursor(Cursor):
     def _matchre_fast(self, pattern: str | re.Pattern | None) -> bool:
         if not (match := self._scanre(pattern)):
             return False
+        if match.end() <= self.pos:
+            return False  # an empty match makes no progress: stop eating
         self.goto(match.end())
         return True
 
